@@ -56,6 +56,10 @@ pub fn convert(kind: &str, b: &[u8]) -> Option<String> {
             out.push(("into_iri", okb(o.clone().into_iri().as_bytes(), b)));
             out.push(("into_iri_ref", okb(o.clone().into_iri_ref().as_bytes(), b)));
             out.push(("from_buf", okb(UriRefBuf::from(o).as_bytes(), b)));
+            // the unchecked up-casts must produce what the checked IRI constructors accept
+            let txt = std::str::from_utf8(b).ok();
+            out.push(("iri_accepts", if txt.map_or(false, |t| Iri::new(t).is_ok()) { "ok" } else { "REJECTED" }));
+            out.push(("iri_ref_accepts", if txt.map_or(false, |t| IriRef::new(t).is_ok()) { "ok" } else { "REJECTED" }));
         }
         "uriref" => {
             let Ok(v) = UriRef::new(b) else { return Some("invalid".into()) };
@@ -73,6 +77,8 @@ pub fn convert(kind: &str, b: &[u8]) -> Option<String> {
             out.push(("tryfrom_buf_uri", resb(UriBuf::try_from(o.clone()).map(|x| x.as_bytes().to_vec()).map_err(|e| e.0.as_bytes().to_vec()), b)));
             out.push(("tryfrom_buf_iri", resb(IriBuf::try_from(o.clone()).map(|x| x.as_bytes().to_vec()).map_err(|e| e.0.as_bytes().to_vec()), b)));
             out.push(("from_buf_iri_ref", okb(IriRefBuf::from(o).as_bytes(), b)));
+            let txt = std::str::from_utf8(b).ok();
+            out.push(("iri_ref_accepts", if txt.map_or(false, |t| IriRef::new(t).is_ok()) { "ok" } else { "REJECTED" }));
         }
         "iri" => {
             let Ok(s) = std::str::from_utf8(b) else { return Some("invalid".into()) };
@@ -715,7 +721,23 @@ pub fn dispatch(t: &[&str]) -> Option<String> {
         "routes" => routes(t.get(1)?, &unhex(t.get(2)?)?),
         "views" => views(t.get(1)?, &unhex(t.get(2)?)?),
         "cross" => match *t.get(1)? {
-            "u" => cross_u(&unhex(t.get(2)?)?, &unhex(t.get(3)?)?),
+            "u" => {
+                // the URI view and the IRI view of the same two values must compare and order
+                // alike (`Borrow<Iri>` for `UriBuf`, `BTreeSet<UriBuf>` looked up through `Iri`)
+                let (x, y) = (unhex(t.get(2)?)?, unhex(t.get(3)?)?);
+                let ru = cross_u(&x, &y)?;
+                match cross_i(&x, &y) {
+                    Some(ri) if ru != "invalid" && ri != "invalid" => {
+                        let (pu, pi): (Vec<&str>, Vec<&str>) = (ru.split(' ').collect(), ri.split(' ').collect());
+                        if pu.len() == 3 && pi.len() == 3 && (pu[0] != pi[0] || pu[1] != pi[1]) && pu[2] == "cross=ok" {
+                            Some(format!("{} {} cross=BAD:uri-vs-iri({},{})", pu[0], pu[1], pi[0], pi[1]))
+                        } else {
+                            Some(ru)
+                        }
+                    }
+                    _ => Some(ru),
+                }
+            }
             "i" => cross_i(&unhex(t.get(2)?)?, &unhex(t.get(3)?)?),
             _ => None,
         },
